@@ -108,7 +108,15 @@ def stream_supersets(ctx):
                     "and bucket lists of every 1-2 column combination of the base columns must be identical (order-preserving positions), and equal up to the dimension "
                     "permutation when the relative order changes; non-trivial = tree with >= 1 split")
     for _ in range(ctx.scale(6, 60)):
-        t = TS.gen_table(R, max_rows=R.choice([60, 160]), ncols=2)
+        if _ % 3 == 2:
+            # precision-limit tables: continuous columns whose depth-2 nodes hold about rows/fraction rows each, so that the +-5% noise of the 1-dim row limit decides splits
+            from syndiffix.common import AnonymizationParams, BucketizationParams
+            n = R.choice([800, 1200])
+            t = {"names": R.sample(["c0", "b", "zeta", "x1"], 2), "cols": [[R.random() * 0.9999 for _ in range(n)] for _ in range(2)], "styles": ["cont", "cont"],
+                 "pids": None, "pid_mode": "unique", "ap": AnonymizationParams(salt=R.getrandbits(64).to_bytes(8, "little")),
+                 "bp": BucketizationParams(precision_limit_row_fraction=4, precision_limit_depth_threshold=1), "n": n}
+        else:
+            t = TS.gen_table(R, max_rows=R.choice([60, 160]), ncols=2)
         extra = [TS.gen_column(R, t["n"])[1] for _ in range(3)]
         F0, _ = TS.build_real(t)
         variants = []
